@@ -12,6 +12,20 @@ def S(scenario, quick, thorough, label="", wall=60, **params):
 
 
 PLANS = {
+    "C02": {
+        "level": "exploration",
+        "rule": NT_RULE + "; C02: at least one disturbed asynchronous operation was submitted and validated",
+        "budget_s": {"quick": 55, "thorough": 900},
+        "scenarios": [
+            S("c02_sleep", 500, 20000),
+            S("c02_xfer", 700, 30000),
+            S("c02_pending", 600, 25000),
+            S("c02_dial", 400, 15000),
+            S("c02_stream", 400, 15000),
+            S("c05_conc", 300, 10000, label="aiomon"),
+        ],
+        "assumptions": ["internal aios are observed through link-time wrapping of nni_task_*/nni_aio_* (sim/aiomon.c); the monitor self-reports its event counts in stats"],
+    },
     "C05": {
         "level": "exploration",
         "rule": NT_RULE + "; C05: at least one message was published and the model compared",
